@@ -130,7 +130,13 @@ def run(ctx, build, verdict, ev):
     if mism:
         verdict.add_broken("correspondence", f"hedge kernel {mism[0][0]} ({mism[0][1]} mode)", f"model and implementation differ on {len(mism)} cases, first: {mism[:5]}")
     nviol = oracle(ctx, verdict, fl, grid + near)
+    import floatlaws  # exact (tolerance-free) oracles: exactly the binary64-level theorems of Properties/C05b.v
+
+    fx = floatlaws.hedges(ctx, verdict, fl)
+    nviol += fx["exact_float_law_violations"]
     c = ev["coverage"]
+    c["exact_float_law_checks"] = fx["exact_float_law_checks"]
+    c["exact_float_laws"] = fx
     c["evaluations"] = len(index)
     c["distinct_nontrivial"] = len({(n, x) for n, _, x, r in index if r == r and 0 < r < 1})
     c["rule"] = ("every hedge x (exhaustive dyadic grid k/%d, random doubles, the branch point 0.5 and fix points with 4 float neighbours each side, special values) "
